@@ -258,6 +258,235 @@ def _layer_situation(cfg) -> str:
 
 
 # ---------------------------------------------------------------------------------
+# PlantUML parsing (C06) and DiagramRule (C07)
+# ---------------------------------------------------------------------------------
+
+
+def register_puml(path, components, relation, must_reject=False) -> None:
+    HUB.puml_truth[os.path.realpath(str(path))] = (frozenset(components), frozenset(relation), must_reject)
+
+
+def _puml_truth_for(path):
+    from .refmodel import puml as rpuml
+
+    key = os.path.realpath(str(path))
+    if key in HUB.puml_truth:
+        return HUB.puml_truth[key], "registered"
+    try:
+        with open(key) as f:
+            text = f.read().strip()
+    except OSError:
+        return None, "unreadable"
+    if "@startuml" not in text or "@enduml" not in text:
+        return (frozenset(), frozenset(), True), "recognised-tagless"
+    r = rpuml.recognise(text)
+    if r is None:
+        return None, "abstain"
+    return (frozenset(r[0]), frozenset(r[1]), False), "recognised"
+
+
+def _wrap_puml_parse():
+    from pytestarch.diagram_extension.diagram_parser import PumlParser
+
+    orig = PumlParser.__dict__["parse"]
+
+    @functools.wraps(orig)
+    def parse(self, file_path):
+        if not HUB.active:
+            return orig(self, file_path)
+        exc = None
+        try:
+            res = orig(self, file_path)
+        except Exception as e:  # noqa: BLE001
+            exc, res = e, None
+        try:
+            if "C06" in HUB.judges:
+                _judge_parse(file_path, res, exc)
+        except Exception as e:  # noqa: BLE001
+            HUB.acc.mark_inconclusive(f"judge_parse crashed: {type(e).__name__}: {e}")
+        if exc is not None:
+            raise exc
+        return res
+
+    parse._pta_orig = orig
+    PumlParser.parse = parse
+
+
+def _judge_parse(path, res, exc) -> None:
+    truth, how = _puml_truth_for(path)
+    HUB.acc.count("puml_parse_calls")
+    HUB.acc.hist("puml_truth_source", how)
+    if truth is None:
+        return
+    comps, rel, must_reject = truth
+    HUB.acc.count("c06_judged")
+    try:
+        text = open(path).read()
+    except OSError:
+        text = None
+    if must_reject:
+        HUB.acc.count("c06_tagless_judged")
+        if exc is None:
+            HUB.violation("C06", "tagless-file-accepted", "a file without start/end tag was parsed instead of rejected", {"text": text})
+        elif type(exc).__name__ != "PumlParsingError":
+            HUB.violation("C06", f"tagless-file-raises-{type(exc).__name__}", "a file without start/end tag was rejected with something other than a parsing error", {"text": text, "error": str(exc)})
+        return
+    if exc is not None:
+        HUB.violation("C06", f"parse-raises-{type(exc).__name__}", f"a diagram of the documented subset was rejected: {exc}", {"text": text})
+        return
+    got_comps = set(res.all_modules)
+    got_rel = {(a, b) for a, bs in res.dependencies.items() for b in bs}
+    if got_comps != set(comps) or got_rel != set(rel):
+        lost, extra = sorted(set(rel) - got_rel), sorted(got_rel - set(rel))
+        if any("." in c for c in comps) and (set(comps) - got_comps or lost):
+            key = "dotted-component-names"
+        elif lost and not extra and got_comps == set(comps):
+            key = "arrows-lost"
+        elif extra:
+            key = "arrows-invented-or-misresolved"
+        else:
+            key = "components-differ"
+        HUB.violation(
+            "C06", key, "parsed components / dependencies differ from what the diagram draws",
+            {"text": text, "components_missing": sorted(set(comps) - got_comps), "components_extra": sorted(got_comps - set(comps)), "arrows_lost": lost, "arrows_extra": extra},
+        )
+
+
+def snapshot_diagram_rule(dr) -> dict:
+    return {"file": str(dr._file_path) if dr._file_path is not None else None, "base": dr._name_relative_to_root, "should_only": bool(dr._should_only_rule)}
+
+
+def _wrap_diagram_rule():
+    from pytestarch.diagram_extension.diagram_rule import DiagramRule
+
+    for n in ("from_file", "with_base_module", "base_module_included_in_module_names"):
+        _wrap_fluent(DiagramRule, n)
+    orig = DiagramRule.__dict__["assert_applies"]
+
+    @functools.wraps(orig)
+    def assert_applies(self, evaluable):
+        if not HUB.active:
+            return orig(self, evaluable)
+        entry = ["assert_applies", [], None]
+        trace_of(self).append(entry)
+        cfg = snapshot_diagram_rule(self)
+        before = graph_state(evaluable)
+        exc = None
+        try:
+            orig(self, evaluable)
+            outcome, msg, et = "pass", None, None
+        except AssertionError as e:
+            exc, outcome, msg, et = e, "fail", str(e), "AssertionError"
+        except Exception as e:  # noqa: BLE001
+            exc, outcome, msg, et = e, "error", str(e), type(e).__name__
+        entry[2] = "ok" if exc is None else et
+        after = graph_state(evaluable)
+        _purity(before, after, "DiagramRule.assert_applies", cfg)
+        ev = Event("DiagramRule.assert_applies", cfg, outcome, msg, et, id(evaluable), truth_from_state(before) if before else None)
+        ev.extra["trace"] = list(map(list, trace_of(self)))
+        ev.extra["tag"] = HUB.tag
+        if HUB.keep_log:
+            HUB.log.append(ev)
+        self.__dict__["_pta_last_event"] = ev
+        try:
+            if "C07" in HUB.judges and ev.truth is not None and cfg["file"]:
+                _judge_diagram_rule(ev)
+        except Exception as e:  # noqa: BLE001
+            HUB.acc.mark_inconclusive(f"judge_diagram_rule crashed: {type(e).__name__}: {e}")
+        if exc is not None:
+            raise exc
+
+    assert_applies._pta_orig = orig
+    DiagramRule.assert_applies = assert_applies
+
+
+def diagram_expectation(mods, imps, comps, rel, should_only):
+    """-> (conforms, expected_pos, expected_neg, n_violated_rules) from the statement of C07 and R-RULE."""
+    from .refmodel import rules as rrule
+
+    sel = {c: rrule.sel(("named", c), mods) for c in comps}
+    conforms = True
+    for a in comps:
+        for b in comps:
+            if a == b:
+                continue
+            drawn = (a, b) in rel
+            has = any(x in sel[a] and y in sel[b] for x, y in imps)
+            if has != drawn:
+                conforms = False
+    if should_only:
+        for a in comps:
+            targets = {b for (x, b) in rel if x == a}
+            if not targets:
+                continue
+            allowed = set(sel[a]).union(*[sel[t] for t in targets])
+            if any(x in sel[a] and y not in allowed for x, y in imps):
+                conforms = False
+    pos, neg, nviol = set(), set(), 0
+    for a in sorted(comps):
+        targets = sorted(b for (x, b) in rel if x == a)
+        if targets:
+            cfg = {"verb": "should_only" if should_only else "should", "dir": "import", "exc": False, "subs": [("named", a)], "objs": [("named", t) for t in targets], "anything": False}
+            ok, p, n = rrule.evaluate(mods, imps, cfg, False)
+            if not ok:
+                nviol += 1
+                pos |= p
+                neg |= n
+        non = sorted(set(comps) - {a} - set(targets))
+        if non:
+            cfg = {"verb": "should_not", "dir": "import", "exc": False, "subs": [("named", a)], "objs": [("named", t) for t in non], "anything": False}
+            ok, p, n = rrule.evaluate(mods, imps, cfg, False)
+            if not ok:
+                nviol += 1
+                pos |= p
+                neg |= n
+    return conforms, pos, neg, nviol
+
+
+def _judge_diagram_rule(ev) -> None:
+    from .refmodel import msgparse
+    from .refmodel.names import pairwise_unrelated
+
+    cfg = ev.cfg
+    truth, how = _puml_truth_for(cfg["file"])
+    HUB.acc.count("diagram_rule_events")
+    if truth is None or truth[2]:
+        return
+    comps, rel, _ = truth
+    if cfg["base"]:
+        pre = cfg["base"] + "."
+        comps = frozenset(pre + c for c in comps)
+        rel = frozenset((pre + a, pre + b) for a, b in rel)
+    mods, imps = ev.truth
+    if not comps or any(c not in mods for c in comps) or not pairwise_unrelated(comps):
+        HUB.acc.hist("c07_domain", "outside")
+        return
+    HUB.acc.hist("c07_domain", "strict")
+    w = {"cfg": cfg, "components": sorted(comps), "drawn": sorted(rel), "mods": sorted(mods), "imps": sorted(imps), "message": ev.message}
+    if ev.outcome == "error":
+        HUB.violation("C07", f"exception:{ev.exc_type}", f"diagram rule over existing components raised {ev.exc_type}", w)
+        return
+    conforms, pos, neg, nviol = diagram_expectation(mods, imps, comps, rel, cfg["should_only"])
+    HUB.acc.count("c07_judged")
+    HUB.acc.hist("c07_failing_rules", min(nviol, 5))
+    HUB.acc.hist("c07_mode_naming", f"{'should_only' if cfg['should_only'] else 'should'}:{'base' if cfg['base'] else 'fq'}:{ev.outcome}")
+    got = ev.outcome == "pass"
+    if got != conforms:
+        HUB.violation("C07", f"verdict:{'false-pass' if got else 'false-fail'}:{'should_only' if cfg['should_only'] else 'should'}", f"DiagramRule {'passed' if got else 'failed'} but the imports {'do not conform' if got else 'conform'} to the diagram", w)
+        return
+    if not got:
+        try:
+            gp, gn = msgparse.parse_module_message(ev.message, allow_duplicates=True)
+        except msgparse.Unparseable as e:
+            HUB.violation("C07", "unparseable-aggregate", f"aggregated message has a line of no documented form: {e}", w)
+            return
+        if gp != pos or gn != neg:
+            w2 = dict(w, extra=sorted(gp - pos), missing=sorted(pos - gp), neg_extra=sorted(map(repr, gn - neg)), neg_missing=sorted(map(repr, neg - gn)))
+            key = "aggregate-incomplete" if (pos - gp or neg - gn) else "aggregate-extra"
+            HUB.violation("C07", key, "aggregated error is not the union of the messages of all violated rules", w2)
+
+
+# ---------------------------------------------------------------------------------
 # install
 # ---------------------------------------------------------------------------------
 
@@ -271,3 +500,5 @@ def install(hub) -> None:
     for n in ARCH_FLUENT:
         _wrap_fluent(LayeredArchitecture, n)
     _wrap_layer_rule_assert()
+    _wrap_puml_parse()
+    _wrap_diagram_rule()
